@@ -222,7 +222,9 @@ class Discharger:
             # where do the elements come from?
             pushes = [x for x in w.events if x.kind == 'local_mut' and x.data['local'] == loops[-1][2] and x.data['method'] in ('push', 'insert')]
             src_set = pushes and all(_set_typed(self.prog, l[3]) for p in pushes for l in p.loops)
-            if not src_set:
+            # ... or every push is guarded by "not yet in the list"
+            dedup = pushes and all(entails(p.pc, Not(has(p.data['local'], p.data['args'][0])))[0] for p in pushes)
+            if not src_set and not dedup:
                 return ('the membership of %s was checked when the list was built; the loop removes members, so a repeated name '
                         'reaches the removal again without being a member' % show_term(key)[:40])
         return None
@@ -748,6 +750,30 @@ class Discharger:
         hi = rng.get('end', ('len', base))
         if not is_str:
             # byte/element slices: bounds only
+            les = le_facts(e.pc)
+            ln = ('len', base)
+
+            def bounded(x):
+                """x <= len(base)"""
+                if x == ('lit', 0) or x == ln or (x, ln) in les:
+                    return True
+                # x <= len - b   (b unsigned)
+                if any(a == x and b[0] == 'sub' and b[1] == ln for (a, b) in les):
+                    return True
+                # len - b
+                if x[0] == 'sub' and x[1] == ln:
+                    return True
+                # y + b with y <= len - b
+                if x[0] == 'add' and any(a == x[1] and b == ('sub', ln, x[2]) for (a, b) in les):
+                    return True
+                # position()/find() result on the same sequence is < len; so is result + 1 <= len
+                if x[0] == 'some_of' and x[1][0] == 'find' and x[1][1] == base:
+                    return True
+                if x[0] == 'add' and x[2] == ('lit', 1) and x[1][0] == 'some_of' and x[1][1][0] == 'find' and x[1][1][1] == base:
+                    return True
+                return False
+            if bounded(lo) and (hi == ln or bounded(hi)) and (hi == ln or lo == ('lit', 0) or (lo, hi) in les):
+                return 'D1', 'slice bounds established'
             ok_lo = lo == ('lit', 0) or (lo, ('len', base)) in le_facts(e.pc) or lo == ('len', base)
             ok_hi = hi == ('len', base) or (hi, ('len', base)) in le_facts(e.pc)
             if hi == ('sub', ('len', base), ('lit', 1)) and len_lower_bound(e.pc, base) >= 1:
